@@ -70,7 +70,7 @@ Proof.
     destruct (mutate w0 t (add_m e f)) as [[r1 w1] e1] eqn:Em; destruct (mutate w0 t (add_m ec f)) as [[rc1 wc1] ec1] eqn:Emc;
     pose proof (mutate_lock o w0 t (add_m e f) (add_m ec f) _ _ _ _ _ _ (R_add_m o e ec f f HR) Em Emc) as HL end.
   intros E1 E2; inversion E1; inversion E2; subst.
-  destruct HL as [(A & B & C & _)|(A & B & [(C1 & C2)|(C0 & C1 & C2 & C3 & C4)])].
+  destruct HL as [(A & B & C & _)|(A & B & [(C1 & C2)|(C0 & C1 & C2 & C3 & C4 & _)])].
   - left. auto.
   - right. split; [exact A|]. split; [discriminate|]. split; [reflexivity|]. left. split; [unfold rot_none; rewrite Ecl; exact C1|exact C2].
   - right. split; [exact A|]. split; [discriminate|]. split; [reflexivity|]. right. split; [unfold rot_none, set_failed; cbn; rewrite Ecl; exact C1|].
@@ -93,42 +93,61 @@ Lemma reset_first_lock o c w nbase e ec r w1 e1 dl rc wc1 ec1 dlc : R o e ec ->
   reset_first c w nbase e = (r, w1, e1, dl) -> reset_first c w nbase ec = (rc, wc1, ec1, dlc) ->
   (r = rc /\ w1 = wc1 /\ dl = dlc /\ R o e1 ec1 /\
    (rc = ROk -> forall ti, tail_info (st_segs w) = Some ti -> si_base ti <> nbase ->
-    dl = [name_of ti] /\ exists si, st_tail w1 = Some (new_wseg si) /\ lookup (name_of si) (dk_files (e_disk e)) = None)) \/
+    dl = [name_of ti] /\ exists si, st_tail w1 = Some (new_wseg si) /\ lookup (name_of si) (dk_files (e_disk e)) = None) /\
+   (rc <> ROk -> st_failed wc1 = true \/ (w1 = w /\ e1 = e /\ ec1 = ec))) \/
   (e_fault e1 = None /\ r = RErrIO /\ dl = [] /\
    ((w1 = w /\ e_disk e1 = e_disk e) \/
     (rc = ROk /\ w1 = set_failed w /\
      exists ps, drel o (e_disk e1) (apply_act (e_disk ec) (ACommit ps)) /\
-                pfx ec ec1 (apply_act (e_disk ec) (ACommit ps))))).
+                pfx ec ec1 (apply_act (e_disk ec) (ACommit ps)) /\ dk_meta (e_disk ec1) = Some ps /\
+                NoDup (map fst (dk_files (e_disk ec1))) /\
+                (forall ti, tail_info (st_segs w) = Some ti -> si_base ti <> nbase -> dlc = [name_of ti])))).
 Proof.
   intros HR. unfold reset_first. destruct (0 <? _).
-  { intros E1 E2; inversion E1; inversion E2; subst. left. repeat split; auto; try apply HR; discriminate. }
+  { intros E1 E2; inversion E1; inversion E2; subst. left.
+    split; [reflexivity|]. split; [reflexivity|]. split; [reflexivity|]. split; [exact HR|]. split; [discriminate|auto]. }
   assert (Gen : forall t, mutate_gen true w t e = (r, w1, e1, dl) -> mutate_gen true w t ec = (rc, wc1, ec1, dlc) ->
     (r = rc /\ w1 = wc1 /\ dl = dlc /\ R o e1 ec1 /\
      (rc = ROk ->
       (st_tail w1 = tx_tail t /\ tx_create t = None \/ exists si, st_tail w1 = Some (new_wseg si) /\ lookup (name_of si) (dk_files (e_disk e)) = None) /\
-      dl = tx_delete t)) \/
+      dl = tx_delete t) /\ (rc <> ROk -> st_failed wc1 = true)) \/
     (e_fault e1 = None /\ r = RErrIO /\ dl = [] /\
      ((w1 = w /\ e_disk e1 = e_disk e) \/
       (rc = ROk /\ w1 = set_failed w /\
        exists ps, drel o (e_disk e1) (apply_act (e_disk ec) (ACommit ps)) /\
-                  pfx ec ec1 (apply_act (e_disk ec) (ACommit ps)))))).
-  { intros t E1 E2. destruct (mutate_gen_lock o true w t e ec _ _ _ _ _ _ _ _ HR E1 E2) as [(A & B & C & D & _)|(A & B & C & [D|(D0 & D1 & D2 & D3 & D4)])].
-    - left. split; [exact A|]. split; [exact B|]. split; [exact C|]. split; [exact D|]. intros Hr. subst rc r.
+                  pfx ec ec1 (apply_act (e_disk ec) (ACommit ps)) /\ dk_meta (e_disk ec1) = Some ps /\
+                  NoDup (map fst (dk_files (e_disk ec1))) /\ dlc = tx_delete t)))).
+  { intros t E1 E2. destruct (mutate_gen_lock o true w t e ec _ _ _ _ _ _ _ _ HR E1 E2) as [(A & B & C & D & _ & F)|(A & B & C & [D|(D0 & D1 & D2 & D3 & D4 & D5 & _ & D7)])].
+    - left. split; [exact A|]. split; [exact B|]. split; [exact C|]. split; [exact D|]. split; [|exact F]. intros Hr. subst rc r.
       destruct (mutate_gen_ok_facts _ _ _ _ _ _ _ E1) as (F1 & F2 & F3 & _). split; [|exact F3].
       destruct (tx_create t) as [si|]; [right; exists si; split; [exact F1|apply F2; reflexivity]|left; auto].
     - right. auto.
-    - right. split; [exact A|]. split; [exact B|]. split; [exact C|]. right. split; [exact D0|]. split; [exact D1|]. eexists; split; eauto. }
+    - right. split; [exact A|]. split; [exact B|]. split; [exact C|]. right. split; [exact D0|]. split; [exact D1|].
+      eexists. split; [exact D3|]. split; [exact D4|]. split; [exact D5|]. split; [exact D7|]. subst rc.
+      destruct (mutate_gen_ok_facts _ _ _ _ _ _ _ E2) as (_ & _ & F3 & _). exact F3. }
   destruct (tail_info _) as [t|] eqn:Eti.
   - destruct (si_base t =? nbase) eqn:Eb.
-    + intros E1 E2. destruct (Gen _ E1 E2) as [(A & B & C & D & E)|F]; [left|right; exact F].
-      split; [exact A|]. split; [exact B|]. split; [exact C|]. split; [exact D|]. intros Hr ti K Hne. injection K as <-. lia.
+    + intros E1 E2. destruct (Gen _ E1 E2) as [(A & B & C & D & E & F)|(A & B & C & [D|(D0 & D1 & ps & D2 & D3 & D4 & D6 & D5)])].
+      * left. split; [exact A|]. split; [exact B|]. split; [exact C|]. split; [exact D|]. split; [|intros K; left; apply F; exact K].
+        intros Hr ti K Hne. injection K as <-. lia.
+      * right. auto.
+      * right. split; [exact A|]. split; [exact B|]. split; [exact C|]. right. split; [exact D0|]. split; [exact D1|].
+        exists ps. split; [exact D2|]. split; [exact D3|]. split; [exact D4|]. split; [exact D6|]. intros ti K Hne. injection K as <-. lia.
     + destruct (create_next _ _ _ _) as [[nid segs2] si].
-      intros E1 E2. destruct (Gen _ E1 E2) as [(A & B & C & D & E)|F]; [left|right; exact F].
-      split; [exact A|]. split; [exact B|]. split; [exact C|]. split; [exact D|]. intros Hr ti K Hne. injection K as <-.
-      destruct (E Hr) as ([(_ & E1')|E1'] & E2'); cbn in *; [discriminate|]. split; [exact E2'|exact E1'].
+      intros E1 E2. destruct (Gen _ E1 E2) as [(A & B & C & D & E & F)|(A & B & C & [D|(D0 & D1 & ps & D2 & D3 & D4 & D6 & D5)])].
+      * left. split; [exact A|]. split; [exact B|]. split; [exact C|]. split; [exact D|]. split; [|intros K; left; apply F; exact K].
+        intros Hr ti K Hne. injection K as <-.
+        destruct (E Hr) as ([(_ & E1')|E1'] & E2'); cbn in *; [discriminate|]. split; [exact E2'|exact E1'].
+      * right. auto.
+      * right. split; [exact A|]. split; [exact B|]. split; [exact C|]. right. split; [exact D0|]. split; [exact D1|].
+        exists ps. split; [exact D2|]. split; [exact D3|]. split; [exact D4|]. split; [exact D6|]. intros ti K Hne. injection K as <-. exact D5.
   - destruct (create_next _ _ _ _) as [[nid segs2] si].
-    intros E1 E2. destruct (Gen _ E1 E2) as [(A & B & C & D & E)|F]; [left|right; exact F].
-    split; [exact A|]. split; [exact B|]. split; [exact C|]. split; [exact D|]. intros Hr ti K; discriminate.
+    intros E1 E2. destruct (Gen _ E1 E2) as [(A & B & C & D & E & F)|(A & B & C & [D|(D0 & D1 & ps & D2 & D3 & D4 & D6 & D5)])].
+    + left. split; [exact A|]. split; [exact B|]. split; [exact C|]. split; [exact D|]. split; [|intros K; left; apply F; exact K].
+      intros Hr ti K; discriminate.
+    + right. auto.
+    + right. split; [exact A|]. split; [exact B|]. split; [exact C|]. right. split; [exact D0|]. split; [exact D1|].
+      exists ps. split; [exact D2|]. split; [exact D3|]. split; [exact D4|]. split; [exact D6|]. intros ti K; discriminate.
 Qed.
 
 (* ------------------------------------------------------------------ *)
@@ -142,30 +161,35 @@ Proof.
   destruct r1; intros E; inversion E; subst; exact H1.
 Qed.
 
+Definition app_facts (tw : wseg) (ls : list log) : Prop :=
+  exists l0 lr, ls = l0 :: lr /\ l_index l0 = ws_base tw + ws_n tw /\ ws_index_start tw = 0.
+
 Lemma store_go_lock o last ls w e ec r w' e' rc wc' ec' : R o e ec ->
   (forall tw, st_tail w = Some tw -> o = Some (ws_name tw) -> wguard (e_disk e) (ws_name tw) (ws_off tw)) ->
   store_go last ls w e = (r, w', e') -> store_go last ls w ec = (rc, wc', ec') ->
   (r = rc /\ w' = wc' /\ R o e' ec' /\
-   (rc = ROk -> ls <> [] -> forall tw, st_tail w = Some tw -> R (clr o (ws_name tw)) e' ec')) \/
+   (rc = ROk -> ls <> [] -> forall tw, st_tail w = Some tw -> R (clr o (ws_name tw)) e' ec') /\
+   (rc <> ROk -> e' = e /\ ec' = ec /\ w' = w)) \/
   (rc = ROk /\ ls <> [] /\ r = RErrIO /\ w' = w /\ e_fault e' = None /\
-   exists tw, st_tail w = Some tw /\
+   exists tw, st_tail w = Some tw /\ app_facts tw ls /\
      (e_disk e' = e_disk e \/
       (drel (clr o (ws_name tw)) (e_disk e') (apply_act (e_disk ec) (append_act tw ls)) /\
        pfx ec ec' (apply_act (e_disk ec) (append_act tw ls))))).
 Proof.
   intros HR Hg. unfold store_go. destruct (check_logs last ls) as [res nbytes].
-  destruct res; [|intros E1 E2; inversion E1; inversion E2; subst; left; repeat split; auto; try apply HR; discriminate ..].
-  destruct (st_tail w) as [tw|] eqn:Et; [|intros E1 E2; inversion E1; inversion E2; subst; left; repeat split; auto; try apply HR; discriminate].
+  destruct res; [|intros E1 E2; inversion E1; inversion E2; subst; left; split; [reflexivity|]; split; [reflexivity|]; split; [exact HR|]; split; [discriminate|auto] ..].
+  destruct (st_tail w) as [tw|] eqn:Et; [|intros E1 E2; inversion E1; inversion E2; subst; left; split; [reflexivity|]; split; [reflexivity|]; split; [exact HR|]; split; [discriminate|auto]].
   destruct (seg_append tw ls e) as [[r1 tw1] e1] eqn:Ea. destruct (seg_append tw ls ec) as [[rc1 twc1] ec1] eqn:Eac.
   destruct (seg_append_lock o tw ls e ec _ _ _ _ _ _ HR (Hg tw eq_refl) Ea Eac)
-    as (A1 & A2 & [(-> & -> & B3 & B4)|(-> & B0 & -> & -> & B3 & B4)]).
+    as (A1 & A2 & [(-> & -> & B3 & B4 & B5)|(-> & B0 & -> & -> & B3 & Bf & B4)]).
   - destruct rc1; intros E1 E2; inversion E1; inversion E2; subst; left;
-      try (split; [reflexivity|]; split; [reflexivity|]; split; [exact B3|]; discriminate).
+      try (split; [reflexivity|]; split; [reflexivity|]; split; [exact B3|]; split; [discriminate|];
+           intros _; destruct B5 as (X & Y & _); [discriminate|]; subst; auto).
     split; [reflexivity|]. split; [reflexivity|]. split; [apply R_add_m; exact B3|].
-    intros _ Hne tw' K. inversion K; subst. apply R_add_m. apply B4; auto.
+    split; [|congruence]. intros _ Hne tw' K. inversion K; subst. apply R_add_m. apply B4; auto.
   - intros E1 E2; inversion E1; inversion E2; subst. right.
     split; [reflexivity|]. split; [exact B0|]. split; [reflexivity|]. split; [reflexivity|]. split; [exact B3|].
-    exists tw. split; [reflexivity|]. destruct B4 as [B4|(B4 & B5)]; [left; exact B4|right].
+    exists tw. split; [reflexivity|]. split; [exact Bf|]. destruct B4 as [B4|(B4 & B5)]; [left; exact B4|right].
     split; [exact B4|]. eapply pfx_more; [exact B5|apply aext_add_m].
 Qed.
 
@@ -184,18 +208,57 @@ Proof.
   apply sh_delete_files. apply H2.
 Qed.
 
+(* the fault-free append keeps the metadata and the set of file names *)
+Lemma update_keys_same n f l g : lookup n l = Some g -> map fst (update n f l) = map fst l.
+Proof.
+  induction l as [|[m h] r IH]; cbn [lookup update map fst]; [discriminate|].
+  destruct (fname_eqb n m) eqn:E; cbn [map fst]; [apply fname_eqb_eq in E; subst; reflexivity|].
+  intros H. rewrite IH; auto.
+Qed.
+
+Lemma write_sync_keys d a : (match a with AWrite _ _ _ _ | ASync _ => True | _ => False end) ->
+  map fst (dk_files (apply_act d a)) = map fst (dk_files d) /\ dk_meta (apply_act d a) = dk_meta d.
+Proof.
+  destruct a as [n sz|n off l b|n|n|ps|k v| |a']; intros H; try destruct H; cbn [apply_act];
+    (destruct (lookup n (dk_files d)) as [f|] eqn:E; [|auto]); cbn [dk_files dk_meta];
+    (split; [eapply update_keys_same; eauto|reflexivity]).
+Qed.
+
+Lemma sh_store_go_keys last ls w ec r w' ec' : e_fault ec = None -> store_go last ls w ec = (r, w', ec') ->
+  map fst (dk_files (e_disk ec')) = map fst (dk_files (e_disk ec)) /\ dk_meta (e_disk ec') = dk_meta (e_disk ec).
+Proof.
+  intros Hf. unfold store_go. destruct (check_logs last ls) as [res nbytes].
+  destruct res; [|intros E; inversion E; subst; auto ..].
+  destruct (st_tail w) as [tw|]; [|intros E; inversion E; subst; auto].
+  destruct (seg_append tw ls ec) as [[r1 tw1] e1] eqn:Ea.
+  assert (H1 : map fst (dk_files (e_disk e1)) = map fst (dk_files (e_disk ec)) /\ dk_meta (e_disk e1) = dk_meta (e_disk ec)).
+  { revert Ea. rewrite seg_append_eq. destruct ls; [intros E; inversion E; subst; auto|].
+    destruct (0 <? _); [intros E; inversion E; subst; auto|].
+    destruct (existsb _ _); [intros E; inversion E; subst; auto|].
+    destruct (negb _); [intros E; inversion E; subst; auto|].
+    destruct (append_act_form tw (l :: ls)) as (ll & b & Ea). rewrite Ea.
+    rewrite (io_ok _ _ Hf). cbn [negb]. rewrite (io_ok _ _ (io_env_fault _ _)). cbn [negb].
+    intros E; inversion E; subst. cbn [io_env e_disk].
+    destruct (write_sync_keys (e_disk ec) (AWrite (ws_name tw) (ws_off tw) ll b) I) as (K1 & K2).
+    destruct (write_sync_keys (apply_act (e_disk ec) (AWrite (ws_name tw) (ws_off tw) ll b)) (ASync (ws_name tw)) I) as (K3 & K4).
+    split; congruence. }
+  destruct r1; intros E; inversion E; subst; exact H1.
+Qed.
+
 (* what the real run of a failed StoreLogs leaves behind *)
 Definition store_failed (o : option fname) (c : cfg) (w : wal) (ls : list log) (e ec : env)
   (w' : wal) (e' : env) (rc : result) (ec' : env) : Prop :=
   (w' = w /\ e_disk e' = e_disk e) \/
   (w' = set_failed w /\
-   exists ps, drel o (e_disk e') (apply_act (e_disk ec) (ACommit ps)) /\ pfx ec ec' (apply_act (e_disk ec) (ACommit ps))) \/
+   exists ps, drel o (e_disk e') (apply_act (e_disk ec) (ACommit ps)) /\ pfx ec ec' (apply_act (e_disk ec) (ACommit ps)) /\
+              dk_meta (e_disk ec') = Some ps /\ (forall n, o = Some n -> lookup n (dk_files (e_disk ec')) = None)) \/
   (w' = w /\ rc = ROk /\ ls <> [] /\
-   exists tw, st_tail w = Some tw /\
+   exists tw, st_tail w = Some tw /\ app_facts tw ls /\
      drel (clr o (ws_name tw)) (e_disk e') (apply_act (e_disk ec) (append_act tw ls)) /\
      pfx ec ec' (apply_act (e_disk ec) (append_act tw ls))) \/
   (exists l0 ls' w1 ec1 dels tw1 dm,
      ls = l0 :: ls' /\ reset_first c w (l_index l0) ec = (ROk, w1, ec1, dels) /\ w' = w1 /\ st_tail w1 = Some tw1 /\
+     app_facts tw1 ls /\
      rc = ROk /\ (dm = e_disk ec1 \/ dm = apply_act (e_disk ec1) (append_act tw1 ls)) /\
      pfx ec ec' dm /\ drel None (e_disk e') (del_disk dels dm)).
 
@@ -229,22 +292,29 @@ Qed.
 
 Lemma store_logs_lock o c w ls e ec r w' e' rc wc' ec' : R o e ec -> stale_tail o w (e_disk e) ->
   store_logs c w ls e = (r, w', e') -> store_logs c w ls ec = (rc, wc', ec') ->
-  (r = rc /\ w' = wc' /\ R o e' ec' /\ (rc = ROk -> ls <> [] -> R None e' ec')) \/
+  (r = rc /\ w' = wc' /\ R o e' ec' /\
+   ((w' = w /\ e' = e /\ ec' = ec) \/ R None e' ec' \/ st_failed wc' = true)) \/
   (e_fault e' = None /\ r = RErrIO /\ store_failed o c w ls e ec w' e' rc ec').
 Proof.
   intros HR Hst. rewrite !store_logs_unfold.
-  destruct (st_closed w); [intros E1 E2; inversion E1; inversion E2; subst; left; repeat split; auto; try apply HR; discriminate|].
-  destruct ls as [|l0 ls']; [intros E1 E2; inversion E1; inversion E2; subst; left; repeat split; auto; try apply HR; congruence|].
+  assert (Hsame : forall r0, (r0, w, e) = (r, w', e') -> (r0, w, ec) = (rc, wc', ec') ->
+    (r = rc /\ w' = wc' /\ R o e' ec' /\ ((w' = w /\ e' = e /\ ec' = ec) \/ R None e' ec' \/ st_failed wc' = true)) \/
+    (e_fault e' = None /\ r = RErrIO /\ store_failed o c w ls e ec w' e' rc ec')).
+  { intros r0 E1 E2; inversion E1; inversion E2; subst. left. auto 10. }
+  destruct (st_closed w); [apply Hsame|].
+  destruct ls as [|l0 ls']; [apply Hsame|].
   set (ls := l0 :: ls') in *.
-  destruct (st_failed w); [intros E1 E2; inversion E1; inversion E2; subst; left; repeat split; auto; try apply HR; discriminate|]. cbv zeta.
-  destruct (tail_info _) as [ti|] eqn:Eti; [|intros E1 E2; inversion E1; inversion E2; subst; left; repeat split; auto; try apply HR; discriminate].
+  destruct (st_failed w); [apply Hsame|]. cbv zeta.
+  destruct (tail_info _) as [ti|] eqn:Eti; [|apply Hsame].
   assert (Hg : forall tw, st_tail w = Some tw -> o = Some (ws_name tw) -> wguard (e_disk e) (ws_name tw) (ws_off tw)).
   { intros tw Ht Ho. destruct (Hst _ Ho) as (_ & ti' & tw' & _ & Ht' & _ & _ & G). rewrite Ht in Ht'. inversion Ht'; subst. exact G. }
   destruct (_ && _) eqn:Ereset.
-  2:{ intros E1 E2. destruct (store_go_lock o _ ls w e ec _ _ _ _ _ _ HR Hg E1 E2) as [(A & B & C & D)|(A & B & C & D & E & tw & Et & F)].
-      - left. split; [exact A|]. split; [exact B|]. split; [exact C|]. intros Hr Hne.
-        destruct o as [n|]; [|destruct (st_tail w) as [tw|] eqn:Et; [specialize (D Hr Hne tw eq_refl); exact D|exact C]].
-        destruct (Hst n eq_refl) as (_ & ti' & tw & _ & Et & En & _). specialize (D Hr Hne tw Et). rewrite En in D.
+  2:{ intros E1 E2. destruct (store_go_lock o _ ls w e ec _ _ _ _ _ _ HR Hg E1 E2) as [(A & B & C & D & D')|(A & B & C & D & E & tw & Et & Ef & F)].
+      - left. split; [exact A|]. split; [exact B|]. split; [exact C|].
+        destruct rc; try (left; destruct D' as (X & Y & Z); [discriminate|auto]).
+        right. left. assert (Hne : ls <> []) by discriminate.
+        destruct o as [n|]; [|destruct (st_tail w) as [tw|] eqn:Et; [specialize (D eq_refl Hne tw eq_refl); exact D|exact C]].
+        destruct (Hst n eq_refl) as (_ & ti' & tw & _ & Et & En & _). specialize (D eq_refl Hne tw Et). rewrite En in D.
         unfold clr in D. rewrite fname_eqb_refl in D. exact D.
       - right. split; [exact E|]. split; [exact C|]. destruct F as [F|(F1 & F2)].
         + left. auto.
@@ -252,22 +322,24 @@ Proof.
   destruct (reset_first c w (l_index l0) e) as [[[r1 w1] e1] dels] eqn:Er.
   destruct (reset_first c w (l_index l0) ec) as [[[rc1 wc1] ec1] delsc] eqn:Erc.
   assert (Hbase : si_base ti <> l_index l0) by lia.
-  destruct (reset_first_lock o c w (l_index l0) e ec _ _ _ _ _ _ _ _ HR Er Erc) as [(-> & -> & -> & B & C)|(A & -> & -> & [(-> & C)|(-> & -> & ps & C1 & C2)])].
-  - destruct rc1; try (intros E1 E2; inversion E1; inversion E2; subst; left; split; [reflexivity|]; split; [reflexivity|]; split; [exact B|]; discriminate).
+  pose proof (sh_reset_first _ _ _ _ _ _ _ _ (proj2 HR) Erc) as Hsh1.
+  assert (Hdel : forall n, o = Some n -> In n [name_of ti]).
+  { intros n Ho. destruct (Hst n Ho) as (_ & ti' & tw' & Eti' & _ & _ & En & _). rewrite Eti in Eti'. inversion Eti'; subst. left; reflexivity. }
+  destruct (reset_first_lock o c w (l_index l0) e ec _ _ _ _ _ _ _ _ HR Er Erc)
+    as [(-> & -> & -> & B & C & C')|(A & -> & -> & [(-> & C)|(-> & -> & ps & C1 & C2 & C3 & C5 & C4)])].
+  - destruct rc1; try (intros E1 E2; inversion E1; inversion E2; subst; left; split; [reflexivity|]; split; [reflexivity|]; split; [exact B|];
+                       destruct C' as [X|(X & Y & Z)]; [discriminate|right; right; exact X|left; auto]).
     destruct (C eq_refl ti Eti Hbase) as (-> & si & Ctail & Hl).
     destruct (store_go _ ls wc1 e1) as [[r2 w2] e2] eqn:Eg. destruct (store_go _ ls wc1 ec1) as [[rc2 wc2] ec2] eqn:Egc.
     assert (Hg1 : forall tw, st_tail wc1 = Some tw -> o = Some (ws_name tw) -> wguard (e_disk e1) (ws_name tw) (ws_off tw)).
     { intros tw Ht Ho. exfalso. destruct (Hst _ Ho) as (Hex & _).
       rewrite Ctail in Ht. inversion Ht; subst tw. cbn [new_wseg ws_name] in Hex. apply Hex. exact Hl. }
-    pose proof (sh_reset_first _ _ _ _ _ _ _ _ (proj2 HR) Erc) as Hsh1.
     pose proof (sh_store_go _ _ _ _ _ _ _ (proj2 Hsh1) Egc) as Hsh2.
-    assert (Hdel : forall n, o = Some n -> In n [name_of ti]).
-    { intros n Ho. destruct (Hst n Ho) as (_ & ti' & tw' & Eti' & _ & _ & En & _). rewrite Eti in Eti'. inversion Eti'; subst. left; reflexivity. }
-    destruct (store_go_lock o _ ls wc1 e1 ec1 _ _ _ _ _ _ B Hg1 Eg Egc) as [(-> & -> & G3 & G4)|(-> & G0 & -> & -> & G3 & tw & Et & G4)].
+    destruct (store_go_lock o _ ls wc1 e1 ec1 _ _ _ _ _ _ B Hg1 Eg Egc) as [(-> & -> & G3 & G4 & _)|(-> & G0 & -> & -> & G3 & tw & Et & Gf & G4)].
     + remember (delete_files [name_of ti] e2) as e3 eqn:He3. remember (delete_files [name_of ti] ec2) as ec3 eqn:Hec3.
       intros E1 E2; injection E1 as <- <- <-; injection E2 as <- <- <-. subst e3 ec3. left.
       destruct (delete_files_lock o [name_of ti] e2 ec2 G3) as (D1 & _ & _ & _ & _ & D6).
-      split; [reflexivity|]. split; [reflexivity|]. split; [exact D1|]. intros _ _.
+      split; [reflexivity|]. split; [reflexivity|]. split; [exact D1|]. right. left.
       destruct o as [n|]; [apply (D6 n eq_refl (Hdel n eq_refl))|exact D1].
     + remember (delete_files [name_of ti] e2) as e3 eqn:He3. remember (delete_files [name_of ti] ec2) as ec3 eqn:Hec3.
       intros E1 E2; injection E1 as <- <- <-; injection E2 as <- <- <-. subst e3 ec3. right.
@@ -276,14 +348,14 @@ Proof.
       pose proof (proj1 (sh_delete_files [name_of ti] ec2 (proj2 Hsh2))) as D2'.
       destruct G4 as [G4|(G4 & G5)].
       * exists l0, ls', wc1, ec1, [name_of ti], tw, (e_disk ec1).
-        split; [reflexivity|]. split; [exact Erc|]. split; [reflexivity|]. split; [exact Et|]. split; [reflexivity|].
+        split; [reflexivity|]. split; [exact Erc|]. split; [reflexivity|]. split; [exact Et|]. split; [exact Gf|]. split; [reflexivity|].
         split; [left; reflexivity|].
         split; [eapply pfx_more; [apply pfx_end; apply Hsh1|eapply aext_trans; [apply Hsh2|exact D2']]|].
         rewrite D4, G4. destruct o as [n|].
         -- apply (del_disk_drel_stale n); [apply B|apply Hdel; reflexivity].
         -- apply del_disk_drel. apply B.
       * exists l0, ls', wc1, ec1, [name_of ti], tw, (apply_act (e_disk ec1) (append_act tw ls)).
-        split; [reflexivity|]. split; [exact Erc|]. split; [reflexivity|]. split; [exact Et|]. split; [reflexivity|].
+        split; [reflexivity|]. split; [exact Erc|]. split; [reflexivity|]. split; [exact Et|]. split; [exact Gf|]. split; [reflexivity|].
         split; [right; reflexivity|].
         split; [eapply pfx_shift; [apply Hsh1|]; eapply pfx_more; [exact G5|exact D2']|].
         rewrite D4. destruct o as [n|].
@@ -297,11 +369,17 @@ Proof.
   - intros E1 E2. inversion E1; subst. right. split; [exact A|]. split; [reflexivity|]. right. left. split; [reflexivity|].
     exists ps. split; [exact C1|].
     destruct (store_go _ ls wc1 ec1) as [[rc2 wc2] ec2] eqn:Egc.
-    pose proof (sh_reset_first _ _ _ _ _ _ _ _ (proj2 HR) Erc) as Hsh1.
     pose proof (sh_store_go _ _ _ _ _ _ _ (proj2 Hsh1) Egc) as Hsh2.
-    inversion E2; subst. eapply pfx_more; [exact C2|]. eapply aext_trans; [apply Hsh2|]. apply sh_delete_files. apply Hsh2.
+    destruct (sh_store_go_keys _ _ _ _ _ _ _ (proj2 Hsh1) Egc) as (K1 & K2).
+    specialize (C4 ti Eti Hbase). subst delsc.
+    remember (delete_files [name_of ti] ec2) as ec3 eqn:Hec3. injection E2 as <- <- <-. subst ec3.
+    split; [eapply pfx_more; [exact C2|]; eapply aext_trans; [apply Hsh2|]; apply sh_delete_files; apply Hsh2|].
+    rewrite (delete_files_disk _ _ (proj2 Hsh2)). destruct (del_disk_meta [name_of ti] (e_disk ec2)) as (M1 & _).
+    split; [rewrite M1, K2; exact C3|].
+    intros n Ho. rewrite del_disk_lookup.
+    + replace (mem_name n [name_of ti]) with true; [reflexivity|]. symmetry. apply mem_name_spec. apply Hdel. exact Ho.
+    + rewrite K1. exact C5.
 Qed.
-
 
 (* ------------------------------------------------------------------ *)
 (* DeleteRange                                                          *)
@@ -314,11 +392,15 @@ Proof.
     intros E. eapply shok_trans; [apply shok_add_m; exact Hf|]. eapply sh_mutate; [|exact E]. exact Hf.
 Qed.
 
-(* a failed state transaction: nothing published, or published on disk only *)
-Definition txn_failed (o : option fname) (w0 : wal) (e ec : env) (w' : wal) (e' : env) (ec' : env) : Prop :=
+(* a failed state transaction: nothing published, or published on disk only
+   (then the file that may carry a stale batch is among the deleted ones) *)
+Definition txn_failed (o : option fname) (w0 w : wal) (e ec : env) (w' : wal) (e' : env) (ec' : env) : Prop :=
   (w' = w0 /\ e_disk e' = e_disk e) \/
   (w' = set_failed w0 /\
-   exists ps, drel o (e_disk e') (apply_act (e_disk ec) (ACommit ps)) /\ pfx ec ec' (apply_act (e_disk ec) (ACommit ps))).
+   exists ps, drel o (e_disk e') (apply_act (e_disk ec) (ACommit ps)) /\ pfx ec ec' (apply_act (e_disk ec) (ACommit ps)) /\
+              dk_meta (e_disk ec') = Some ps /\
+              (forall n ti, o = Some n -> tail_info (st_segs w) = Some ti -> name_of ti = n -> si_sealed ti = false ->
+                            lookup n (dk_files (e_disk ec')) = None)).
 
 Lemma drel_gone n d dc : drel (Some n) d dc -> lookup n (dk_files dc) = None -> drel None d dc.
 Proof.
@@ -344,40 +426,66 @@ Proof. unfold tail_info. destruct l; [congruence|reflexivity]. Qed.
 Lemma tail_info_app_ne a l : l <> [] -> tail_info (a ++ l) = tail_info l.
 Proof. intros H. induction a as [|x a IH]; [reflexivity|]. cbn [app]. rewrite tail_info_cons_ne; [exact IH|]. destruct a; cbn; [exact H|discriminate]. Qed.
 
+(* the common use of [mutate_lock] by the truncations *)
+Lemma mutate_lock' o w0 w t e1 ec1 r w' e' rc wc' ec' : R o e1 ec1 ->
+  mutate w0 t e1 = (r, w', e') -> mutate w0 t ec1 = (rc, wc', ec') ->
+  (forall n ti, o = Some n -> tail_info (st_segs w) = Some ti -> name_of ti = n -> si_sealed ti = false ->
+                tx_create t <> None -> In n (tx_delete t)) ->
+  (r = rc /\ w' = wc' /\ R o e' ec' /\ (rc = ROk -> forall n, o = Some n -> In n (tx_delete t) -> R None e' ec') /\
+   (rc = ROk -> st_segs wc' = tx_segs t /\ (tx_create t = None -> st_tail wc' = tx_tail t)) /\
+   (rc <> ROk -> st_failed wc' = true)) \/
+  (e_fault e' = None /\ r = RErrIO /\ txn_failed o w0 w e1 ec1 w' e' ec').
+Proof.
+  intros HR1 E1 E2 Hin.
+  destruct (mutate_lock o w0 t _ _ _ _ _ _ _ _ HR1 E1 E2) as [(H1 & H2 & H3 & H4 & H5)|(A & B & [C|(C0 & C1 & C2 & C3 & C4 & C5 & C6 & _)])].
+  - left. split; [exact H1|]. split; [exact H2|]. split; [exact H3|]. split; [exact H4|]. split; [|exact H5].
+    intros Hr. subst rc. unfold mutate in E2. destruct (mutate_gen false w0 t _) as [[[r0 w1] e0] d0] eqn:Eg. inversion E2; subst.
+    destruct (mutate_gen_ok_facts _ _ _ _ _ _ _ Eg) as (F1 & _ & _ & F4 & _). split; [exact F4|]. intros Hn. rewrite Hn in F1. exact F1.
+  - right. split; [exact A|]. split; [exact B|]. left. exact C.
+  - right. split; [exact A|]. split; [exact B|]. right. split; [exact C1|]. eexists. split; [exact C3|]. split; [exact C4|].
+    split; [exact C5|]. intros n ti Ho Hti Hn Hs. apply C6. apply (Hin n ti Ho Hti Hn Hs C2).
+Qed.
+
+Lemma txn_failed_shift o w0 w e ec e1 ec1 w' e' ec' :
+  e_disk e1 = e_disk e -> aext ec ec1 -> e_disk ec1 = e_disk ec ->
+  txn_failed o w0 w e1 ec1 w' e' ec' -> txn_failed o w0 w e ec w' e' ec'.
+Proof.
+  intros He Ha Hec [(A & B)|(A & ps & B & C & D)]; [left; split; [exact A|congruence]|right].
+  split; [exact A|]. exists ps. rewrite <- Hec. split; [exact B|]. split; [eapply pfx_shift; eauto|exact D].
+Qed.
+
 Lemma truncate_head_lock o c w nm e ec r w' e' rc wc' ec' : R o e ec ->
   truncate_head c w nm e = (r, w', e') -> truncate_head c w nm ec = (rc, wc', ec') ->
   (r = rc /\ w' = wc' /\ R o e' ec' /\
    (rc = ROk -> forall n ti, o = Some n -> tail_info (st_segs w) = Some ti -> name_of ti = n ->
-      (exists ti', tail_info (st_segs wc') = Some ti' /\ name_of ti' = n /\ st_tail wc' = st_tail w) \/ R None e' ec')) \/
-  (e_fault e' = None /\ r = RErrIO /\ txn_failed o w e ec w' e' ec').
+      (exists ti', tail_info (st_segs wc') = Some ti' /\ name_of ti' = n /\ st_tail wc' = st_tail w) \/ R None e' ec') /\
+   (rc <> ROk -> st_failed wc' = true)) \/
+  (e_fault e' = None /\ r = RErrIO /\ txn_failed o w w e ec w' e' ec').
 Proof.
   intros HR. unfold truncate_head. destruct (head_scan _ _ _ _ _) as [[[rest del] ntr] head] eqn:Ehs.
-  assert (Hmut : forall t f, mutate w t (add_m e f) = (r, w', e') -> mutate w t (add_m ec f) = (rc, wc', ec') ->
-    (r = rc /\ w' = wc' /\ R o e' ec' /\ (rc = ROk -> forall n, o = Some n -> In n (tx_delete t) -> R None e' ec') /\
-     (rc = ROk -> st_segs wc' = tx_segs t /\ (tx_create t = None -> st_tail wc' = tx_tail t))) \/
-    (e_fault e' = None /\ r = RErrIO /\ txn_failed o w e ec w' e' ec')).
-  { intros t f E1 E2. destruct (mutate_lock o w t _ _ _ _ _ _ _ _ (R_add_m o e ec f f HR) E1 E2) as [(H1 & H2 & H3 & H4)|(A & B & [C|(C0 & C1 & C2 & C3 & C4)])].
-    - left. split; [exact H1|]. split; [exact H2|]. split; [exact H3|]. split; [exact H4|].
-      intros Hr. subst rc. unfold mutate in E2. destruct (mutate_gen false w t _) as [[[r0 w0] e0] d0] eqn:Eg. inversion E2; subst.
-      destruct (mutate_gen_ok_facts _ _ _ _ _ _ _ Eg) as (F1 & _ & _ & F4 & _). split; [exact F4|]. intros Hn. rewrite Hn in F1. exact F1.
-    - right. split; [exact A|]. split; [exact B|]. left. exact C.
-    - right. split; [exact A|]. split; [exact B|]. right. split; [exact C1|]. eexists. split; [exact C3|].
-      eapply pfx_shift; [apply aext_add_m|exact C4]. }
   destruct (head_scan_spec _ _ _ _ _ _ _ _ _ Ehs) as (sk & Hsegs & Hdel & Hhead). cbn [app] in Hdel.
   destruct head as [h|].
-  - destruct Hhead as (r0 & ->). intros E1 E2. destruct (Hmut _ _ E1 E2) as [(A & B & C & D & E)|F]; [left|right; exact F].
-    split; [exact A|]. split; [exact B|]. split; [exact C|]. intros Hr n ti Ho Hti Hn. left.
-    destruct (E Hr) as (E1' & E2'). cbn [tx_segs tx_create tx_tail] in E1', E2'. specialize (E2' eq_refl).
-    rewrite E1'. cbn [seg_set si_base]. rewrite N.ltb_irrefl, N.eqb_refl.
-    rewrite Hsegs in Hti. rewrite tail_info_app_ne in Hti by discriminate.
-    destruct r0 as [|x r0].
-    + cbn in Hti. inversion Hti; subst ti. eexists. split; [reflexivity|]. split; [exact Hn|exact E2'].
-    + rewrite tail_info_cons_ne in Hti by discriminate. exists ti. rewrite tail_info_cons_ne by discriminate. auto.
+  - destruct Hhead as (r0 & ->). intros E1 E2.
+    match type of E1 with mutate _ ?t (add_m e ?f) = _ =>
+      destruct (mutate_lock' o w w t _ _ _ _ _ _ _ _ (R_add_m o e ec f f HR) E1 E2) as [(A & B & C & D & E & F)|(A & B & C)] end.
+    { intros n ti _ _ _ _ K. exfalso. apply K. reflexivity. }
+    + left. split; [exact A|]. split; [exact B|]. split; [exact C|]. split; [|exact F]. intros Hr n ti Ho Hti Hn. left.
+      destruct (E Hr) as (E1' & E2'). cbn [tx_segs tx_create tx_tail] in E1', E2'. specialize (E2' eq_refl).
+      rewrite E1'. cbn [seg_set si_base]. rewrite N.ltb_irrefl, N.eqb_refl.
+      rewrite Hsegs in Hti. rewrite tail_info_app_ne in Hti by discriminate.
+      destruct r0 as [|x r0].
+      * cbn in Hti. inversion Hti; subst ti. eexists. split; [reflexivity|]. split; [exact Hn|exact E2'].
+      * rewrite tail_info_cons_ne in Hti by discriminate. exists ti. rewrite tail_info_cons_ne by discriminate. auto.
+    + right. split; [exact A|]. split; [exact B|]. match type of C with txn_failed _ _ _ (add_m _ ?f) _ _ _ _ => apply (txn_failed_shift o w w e ec (add_m e f) (add_m ec f)); [reflexivity|apply aext_add_m|reflexivity|exact C] end.
   - subst rest. rewrite app_nil_r in Hsegs. subst sk.
     destruct (create_next _ _ _ _) as [[nid segs2] si].
-    intros E1 E2. destruct (Hmut _ _ E1 E2) as [(A & B & C & D & E)|F]; [left|right; exact F].
-    split; [exact A|]. split; [exact B|]. split; [exact C|]. intros Hr n ti Ho Hti Hn. right.
-    apply (D Hr n Ho). cbn [tx_delete]. rewrite Hdel. apply in_map_iff. exists ti. split; [exact Hn|]. apply tail_info_In. exact Hti.
+    intros E1 E2.
+    match type of E1 with mutate _ ?t (add_m e ?f) = _ =>
+      destruct (mutate_lock' o w w t _ _ _ _ _ _ _ _ (R_add_m o e ec f f HR) E1 E2) as [(A & B & C & D & E & F)|(A & B & C)] end.
+    { intros n ti _ Hti Hn _ _. cbn [tx_delete]. rewrite Hdel. apply in_map_iff. exists ti. split; [exact Hn|]. apply tail_info_In. exact Hti. }
+    + left. split; [exact A|]. split; [exact B|]. split; [exact C|]. split; [|exact F]. intros Hr n ti Ho Hti Hn. right.
+      apply (D Hr n Ho). cbn [tx_delete]. rewrite Hdel. apply in_map_iff. exists ti. split; [exact Hn|]. apply tail_info_In. exact Hti.
+    + right. split; [exact A|]. split; [exact B|]. match type of C with txn_failed _ _ _ (add_m _ ?f) _ _ _ _ => apply (txn_failed_shift o w w e ec (add_m e f) (add_m ec f)); [reflexivity|apply aext_add_m|reflexivity|exact C] end.
 Qed.
 
 Definition set_tail (w : wal) (t : option wseg) : wal :=
@@ -422,7 +530,7 @@ Proof.
 Qed.
 
 Definition tail_failed (o : option fname) (w : wal) (e ec : env) (w' : wal) (e' : env) (ec' : env) : Prop :=
-  txn_failed o w e ec w' e' ec' \/
+  txn_failed o w w e ec w' e' ec' \/
   (exists tw, st_tail w = Some tw /\ ws_index_start tw = 0 /\ w' = w /\
      (e_disk e' = e_disk e \/
       (drel (clr o (ws_name tw)) (e_disk e') (apply_act (e_disk ec) (force_act tw)) /\
@@ -433,51 +541,55 @@ Definition tail_failed (o : option fname) (w : wal) (e ec : env) (w' : wal) (e' 
      ((w' = set_tail w (Some tw') /\ e_disk e' = e_disk e1 /\ pfx ec ec' (e_disk ec1)) \/
       (w' = set_failed (set_tail w (Some tw')) /\
        exists ps, drel o' (e_disk e') (apply_act (e_disk ec1) (ACommit ps)) /\
-                  pfx ec ec' (apply_act (e_disk ec1) (ACommit ps))))).
+                  pfx ec ec' (apply_act (e_disk ec1) (ACommit ps)) /\ dk_meta (e_disk ec') = Some ps))).
 
 Lemma truncate_tail_lock o c w nm e ec r w' e' rc wc' ec' : R o e ec ->
   (forall tw, st_tail w = Some tw -> o = Some (ws_name tw) -> wguard (e_disk e) (ws_name tw) (ws_off tw)) ->
   truncate_tail c w nm e = (r, w', e') -> truncate_tail c w nm ec = (rc, wc', ec') ->
   (r = rc /\ w' = wc' /\ R o e' ec' /\
    (rc = ROk -> forall n ti tw, o = Some n -> tail_info (st_segs w) = Some ti -> name_of ti = n -> si_sealed ti = false ->
-      st_tail w = Some tw -> ws_name tw = n -> ws_index_start tw = 0 -> R None e' ec')) \/
+      st_tail w = Some tw -> ws_name tw = n -> ws_index_start tw = 0 -> R None e' ec') /\
+   (rc <> ROk -> st_failed wc' = true \/ (w' = w /\ e' = e /\ ec' = ec))) \/
   (e_fault e' = None /\ r = RErrIO /\ tail_failed o w e ec w' e' ec').
 Proof.
   intros HR Hg. unfold truncate_tail. destruct (tail_scan _ _ _ _ _) as [[rrest del] ntr] eqn:Ets.
   destruct (tail_scan_spec _ _ _ _ _ _ _ _ Ets) as (sk & Hrev & Hdel). cbn [app] in Hdel.
-  assert (Hmut : forall o1 w0 t e1 ec1, R o1 e1 ec1 -> mutate w0 t e1 = (r, w', e') -> mutate w0 t ec1 = (rc, wc', ec') ->
-    (r = rc /\ w' = wc' /\ R o1 e' ec' /\ (rc = ROk -> forall n, o1 = Some n -> In n (tx_delete t) -> R None e' ec')) \/
-    (e_fault e' = None /\ r = RErrIO /\ txn_failed o1 w0 e1 ec1 w' e' ec')).
-  { intros o1 w0 t e1 ec1 HR1 E1 E2. destruct (mutate_lock o1 w0 t _ _ _ _ _ _ _ _ HR1 E1 E2) as [H|(A & B & [C|(C0 & C1 & C2 & C3 & C4)])].
-    - left. exact H.
-    - right. split; [exact A|]. split; [exact B|]. left. exact C.
-    - right. split; [exact A|]. split; [exact B|]. right. split; [exact C1|]. eexists. split; [exact C3|exact C4]. }
   destruct rrest as [|t rr].
   - rewrite app_nil_r in Hrev. destruct (create_next _ _ _ _) as [[nid segs2] si].
-    intros E1 E2. destruct (Hmut o _ _ _ _ HR E1 E2) as [(A & B & C & D)|(A & B & C)].
-    + left. split; [exact A|]. split; [exact B|]. split; [exact C|]. intros Hr n ti tw Ho Hti Hn _ _ _ _.
-      apply (D Hr n Ho). cbn [tx_delete]. rewrite Hdel. apply in_map_iff. exists ti. split; [exact Hn|].
-      rewrite <- Hrev. apply in_rev. rewrite rev_involutive. apply tail_info_In. exact Hti.
+    intros E1 E2.
+    assert (Hall : forall n ti, tail_info (st_segs w) = Some ti -> name_of ti = n -> In n del).
+    { intros n ti Hti Hn. rewrite Hdel. apply in_map_iff. exists ti. split; [exact Hn|].
+      rewrite <- Hrev. apply in_rev. rewrite rev_involutive. apply tail_info_In. exact Hti. }
+    destruct (mutate_lock' o w w _ _ _ _ _ _ _ _ _ HR E1 E2) as [(A & B & C & D & _ & F)|(A & B & C)].
+    { intros n ti _ Hti Hn _ _. apply (Hall n ti Hti Hn). }
+    + left. split; [exact A|]. split; [exact B|]. split; [exact C|]. split; [|intros K; left; apply F; exact K].
+      intros Hr n ti tw Ho Hti Hn _ _ _ _. apply (D Hr n Ho). apply (Hall n ti Hti Hn).
     + right. split; [exact A|]. split; [exact B|]. left. exact C.
   - destruct (si_sealed t) eqn:Eseal.
     + destruct (create_next _ _ _ _) as [[nid segs2] si].
       fold (set_tail w (st_tail w)). rewrite set_tail_id.
       intros E1 E2.
-      match type of E1 with mutate _ _ (add_m e ?f) = _ =>
-        destruct (Hmut o _ _ _ _ (R_add_m o e ec f f HR) E1 E2) as [(A & B & C & D)|(A & B & C)] end.
-      * left. split; [exact A|]. split; [exact B|]. split; [exact C|]. intros Hr n ti tw Ho Hti Hn Hus _ _ _.
-        apply (D Hr n Ho). cbn [tx_delete]. rewrite Hdel.
+      assert (Hall : forall n ti, tail_info (st_segs w) = Some ti -> name_of ti = n -> si_sealed ti = false -> In n del).
+      { intros n ti Hti Hn Hus. rewrite Hdel.
         destruct (tail_info_rev _ _ Hti) as (r0 & Hr0). rewrite Hr0 in Hrev.
         destruct sk as [|x sk]; cbn [app] in Hrev; injection Hrev as Hx Hrest; [congruence|]. subst x.
-        apply in_map_iff. exists ti. split; [exact Hn|left; reflexivity].
+        apply in_map_iff. exists ti. split; [exact Hn|left; reflexivity]. }
+      match type of E1 with mutate _ ?t0 (add_m e ?f) = _ =>
+        destruct (mutate_lock' o w w t0 _ _ _ _ _ _ _ _ (R_add_m o e ec f f HR) E1 E2) as [(A & B & C & D & _ & F)|(A & B & C)] end.
+      { intros n ti _ Hti Hn Hus _. apply (Hall n ti Hti Hn Hus). }
+      * left. split; [exact A|]. split; [exact B|]. split; [exact C|]. split; [|intros K; left; apply F; exact K].
+        intros Hr n ti tw Ho Hti Hn Hus _ _ _. apply (D Hr n Ho). apply (Hall n ti Hti Hn Hus).
       * right. split; [exact A|]. split; [exact B|]. left.
-        destruct C as [C|(C1 & ps & C2 & C3)]; [left; exact C|right]. split; [exact C1|]. exists ps. split; [exact C2|].
-        eapply pfx_shift; [apply aext_add_m|exact C3].
-    + destruct (st_tail w) as [tw|] eqn:Etw; [|intros E1 E2; inversion E1; inversion E2; subst; left; repeat split; auto; try apply HR; discriminate].
+        match type of C with txn_failed _ _ _ (add_m _ ?f) _ _ _ _ => apply (txn_failed_shift o w w e ec (add_m e f) (add_m ec f)); [reflexivity|apply aext_add_m|reflexivity|exact C] end.
+    + destruct (st_tail w) as [tw|] eqn:Etw.
+      2:{ intros E1 E2; inversion E1; inversion E2; subst; left. split; [reflexivity|]. split; [reflexivity|]. split; [exact HR|].
+          split; [discriminate|]. intros _. right. auto. }
       destruct (seg_force_seal tw e) as [[r1 tw1] e1] eqn:Efs. destruct (seg_force_seal tw ec) as [[rc1 twc1] ec1] eqn:Efsc.
       destruct (seg_force_seal_lock o tw e ec _ _ _ _ _ _ HR (Hg tw eq_refl) Efs Efsc)
-        as (A1 & A2 & [(-> & -> & B3 & B4)|(-> & B0 & -> & -> & B3 & B4)]).
-      * destruct rc1; try (intros E1 E2; inversion E1; inversion E2; subst; left; split; [reflexivity|]; split; [reflexivity|]; split; [exact B3|]; discriminate).
+        as (A1 & A2 & [(-> & -> & B3 & B4 & B5)|(-> & B0 & -> & -> & B3 & B4)]).
+      * destruct rc1; try (intros E1 E2; inversion E1; inversion E2; subst; left; split; [reflexivity|]; split; [reflexivity|]; split; [exact B3|];
+                           split; [discriminate|]; intros _; right; destruct B5 as (X & Y & Z); [left; discriminate|]; subst;
+                           split; [fold (set_tail w (Some tw)); rewrite <- Etw; apply set_tail_id|auto]).
         destruct (create_next _ _ _ _) as [[nid segs2] si].
         fold (set_tail w (Some twc1)).
         assert (Ho' : exists o', R o' e1 ec1 /\ (o' = o \/ (ws_index_start tw = 0 /\ o' = clr o (ws_name tw))) /\
@@ -487,21 +599,22 @@ Proof.
           - exists o. split; [exact B3|]. split; [left; reflexivity|]. intros K; contradiction. }
         destruct Ho' as (o' & HR1 & Ho' & Ho'').
         intros E1 E2.
-        match type of E1 with mutate _ _ (add_m e1 ?f) = _ =>
-          destruct (Hmut o' _ _ _ _ (R_add_m o' e1 ec1 f f HR1) E1 E2) as [(A & B & C & D)|(A & B & C)] end.
+        match type of E1 with mutate _ ?t0 (add_m e1 ?f) = _ =>
+          destruct (mutate_lock o' _ t0 _ _ _ _ _ _ _ _ (R_add_m o' e1 ec1 f f HR1) E1 E2) as [(A & B & C & D & F)|(A & B & C)] end.
         -- left. split; [exact A|]. split; [exact B|]. split.
            { destruct Ho' as [->|(_ & ->)]; [exact C|eapply R_clr_weaken; exact C]. }
+           split; [|intros K; left; apply F; exact K].
            intros Hr n ti tw0 Ho Hti Hn Hus Htw0 Hname His. inversion Htw0; subst tw0.
            rewrite (Ho'' His) in C. rewrite Ho, <- Hname in C. unfold clr in C. rewrite fname_eqb_refl in C. exact C.
         -- right. split; [exact A|]. split; [exact B|]. right. right.
            exists tw, twc1, e1, ec1, o'. split; [exact Etw|]. split; [exact Efsc|]. split; [exact Efs|]. split; [exact HR1|].
            split; [exact Ho'|]. split; [split; [exact A1|exact A2]|].
-           destruct C as [(C1 & C2)|(C1 & ps & C2 & C3)].
+           destruct C as [(C1 & C2)|(C0 & C1 & _ & C2 & C3 & C4 & _)].
            ++ left. split; [exact C1|]. split; [exact C2|].
               match type of E2 with mutate ?w0 ?t ?e0 = _ => pose proof (sh_mutate w0 t e0 _ _ _ A2 E2) as Hsh end.
               eapply pfx_more; [apply pfx_end; exact A1|]. eapply aext_trans; [apply aext_add_m|apply Hsh].
-           ++ right. split; [exact C1|]. exists ps. split; [exact C2|].
-              eapply pfx_shift; [exact A1|]. eapply pfx_shift; [apply aext_add_m|exact C3].
+           ++ right. split; [exact C1|]. eexists. split; [exact C2|].
+              split; [eapply pfx_shift; [exact A1|]; eapply pfx_shift; [apply aext_add_m|exact C3]|exact C4].
       * intros E1 E2; inversion E1; inversion E2; subst. right.
         split; [exact B3|]. split; [reflexivity|]. right. left. exists tw. split; [exact Etw|]. split; [exact B0|].
         split; [fold (set_tail w (Some tw)); rewrite <- Etw; apply set_tail_id|].
@@ -528,7 +641,8 @@ Lemma delete_range_lock o c w mn mx e ec r w' e' rc wc' ec' : R o e ec ->
   (r = rc /\ w' = wc' /\ R o e' ec' /\
    (rc = ROk -> forall n ti tw, o = Some n -> tail_info (st_segs w) = Some ti -> name_of ti = n -> si_sealed ti = false ->
       st_tail w = Some tw -> ws_name tw = n -> ws_index_start tw = 0 ->
-      (exists ti', tail_info (st_segs wc') = Some ti' /\ name_of ti' = n /\ st_tail wc' = st_tail w) \/ R None e' ec')) \/
+      (exists ti', tail_info (st_segs wc') = Some ti' /\ name_of ti' = n /\ st_tail wc' = st_tail w) \/ R None e' ec') /\
+   (rc <> ROk -> st_failed wc' = true \/ (w' = w /\ e' = e /\ ec' = ec))) \/
   (e_fault e' = None /\ r = RErrIO /\ tail_failed o w e ec w' e' ec').
 Proof.
   intros HR Hg. unfold delete_range.
@@ -536,19 +650,21 @@ Proof.
     (r = rc /\ w' = wc' /\ R o e' ec' /\
      (rc = ROk -> forall n ti tw, o = Some n -> tail_info (st_segs w) = Some ti -> name_of ti = n -> si_sealed ti = false ->
         st_tail w = Some tw -> ws_name tw = n -> ws_index_start tw = 0 ->
-        (exists ti', tail_info (st_segs wc') = Some ti' /\ name_of ti' = n /\ st_tail wc' = st_tail w) \/ R None e' ec')) \/
+        (exists ti', tail_info (st_segs wc') = Some ti' /\ name_of ti' = n /\ st_tail wc' = st_tail w) \/ R None e' ec') /\
+     (rc <> ROk -> st_failed wc' = true \/ (w' = w /\ e' = e /\ ec' = ec))) \/
     (e_fault e' = None /\ r = RErrIO /\ tail_failed o w e ec w' e' ec')).
   { intros r0 E1 E2. inversion E1; inversion E2; subst. left. split; [reflexivity|]. split; [reflexivity|]. split; [exact HR|].
-    intros _ n ti tw _ Hti Hn _ _ _ _. left. exists ti. auto. }
+    split; [|intros _; right; auto]. intros _ n ti tw _ Hti Hn _ _ _ _. left. exists ti. auto. }
   destruct (st_closed w); [apply Hsame|]. destruct (mx <? mn); [apply Hsame|]. destruct (st_failed w); [apply Hsame|]. cbv zeta.
   destruct (_ || _); [apply Hsame|].
   destruct (mn <=? _).
-  - intros E1 E2. destruct (truncate_head_lock o c w _ e ec _ _ _ _ _ _ HR E1 E2) as [(A & B & C & D)|(A & B & C)].
-    + left. split; [exact A|]. split; [exact B|]. split; [exact C|]. intros Hr n ti tw Ho Hti Hn _ _ _ _. apply (D Hr n ti Ho Hti Hn).
+  - intros E1 E2. destruct (truncate_head_lock o c w _ e ec _ _ _ _ _ _ HR E1 E2) as [(A & B & C & D & F)|(A & B & C)].
+    + left. split; [exact A|]. split; [exact B|]. split; [exact C|]. split; [|intros K; left; apply F; exact K].
+      intros Hr n ti tw Ho Hti Hn _ _ _ _. apply (D Hr n ti Ho Hti Hn).
     + right. split; [exact A|]. split; [exact B|]. left. exact C.
   - destruct (_ <=? mx); [|apply Hsame].
-    intros E1 E2. destruct (truncate_tail_lock o c w _ e ec _ _ _ _ _ _ HR Hg E1 E2) as [(A & B & C & D)|F].
-    + left. split; [exact A|]. split; [exact B|]. split; [exact C|]. intros Hr n ti tw Ho Hti Hn Hs Htw Hname His. right.
+    intros E1 E2. destruct (truncate_tail_lock o c w _ e ec _ _ _ _ _ _ HR Hg E1 E2) as [(A & B & C & D & F)|F].
+    + left. split; [exact A|]. split; [exact B|]. split; [exact C|]. split; [|exact F]. intros Hr n ti tw Ho Hti Hn Hs Htw Hname His. right.
       apply (D Hr n ti tw Ho Hti Hn Hs Htw Hname His).
     + right. exact F.
 Qed.
